@@ -360,9 +360,16 @@ func (s *Solver) getModel() Model {
 		}
 	}
 	toks := tokenize(sb.String())
-	// pattern: ( ( name value ) ( name value ) ... )
+	// pattern: ( ( name value ) ( name value ) ... ); cvc5 may print (_ bvN W)
 	i := 0
 	for i < len(toks) {
+		if toks[i] == "(" && i+6 < len(toks) && toks[i+1] != "(" && toks[i+2] == "(" && toks[i+3] == "_" && strings.HasPrefix(toks[i+4], "bv") {
+			if v, err := strconv.ParseUint(toks[i+4][2:], 10, 64); err == nil {
+				m[toks[i+1]] = v
+				i += 7
+				continue
+			}
+		}
 		if toks[i] == "(" && i+2 < len(toks) && toks[i+1] != "(" {
 			name := toks[i+1]
 			val := toks[i+2]
